@@ -28,7 +28,7 @@ from praatio.data_classes import klattgrid as kc
 from praatio.data_classes.data_point import PointObject1D, PointObject2D
 
 RULE = ("KlattGrids: the reference tests/files/bobby.KlattGrid and synthetic files (independent writer, Praat layout or "
-        "praatio layout; 1-6 oral / frication formants, 0-5 points per tier, values drawn from short integers, 17-digit "
+        "praatio layout; 1-6 (sometimes 10-13) oral / frication formants, 0-5 points per tier, values drawn from short integers, 17-digit "
         "decimals, exponent forms, 0) x value functions {x/3-like scaling by 1/3, x*1.1, +0.1, sign change, *1e-300, *1e300, "
         "constants 5, 0, 0.0, -7, 2.5, 1e-05, 1e+22, 0.1, pi} applied through modifySubtiers / modifyValues to a random "
         "subset of the tiers; open -> modify -> save -> open -> save -> open. Point objects: 0..6 points (thorough: ..40), "
@@ -1018,7 +1018,7 @@ def gen_points(rnd, lo, hi, nmax=5):
 def gen_spec(rnd, nmax=5):
     lo = rnd.choice([0, 0, 0, 0.5])
     hi = rnd.choice([1.194625, 2, 1.5, 0.75 + rnd.random()])
-    nf = rnd.randint(1, 6)
+    nf = rnd.randint(1, 6) if rnd.random() < 0.8 else rnd.randint(10, 13)    # two-digit sub-tier numbers now and then
     secs = []
 
     def T(name, header_only=False):
@@ -1045,7 +1045,7 @@ def gen_spec(rnd, nmax=5):
         C("delta_formants", ["formants", "bandwidths"], [1, 1])
     T("frication", True)
     T("fricationAmplitude")
-    m = rnd.randint(1, 6)
+    m = rnd.randint(1, 6) if rnd.random() < 0.85 else rnd.randint(10, 12)
     C("frication_formants", ["formants", "bandwidths", "frication_formants_amplitudes"], [m, m, m])
     if rnd.random() < 0.8:
         T("bypass")
